@@ -197,7 +197,7 @@ func (t *Tracker) ListenFunc(ctx context.Context, network, address string) (net.
 	var l net.Listener
 	var err error
 	for try := 0; try < 50; try++ {
-		l, err = lc.Listen(ctx, "tcp4", net.JoinHostPort("127.0.0.1", itoa(port)))
+		l, err = lc.Listen(ctx, "tcp4", net.JoinHostPort(LoopHost, itoa(port)))
 		if err == nil || port == 0 {
 			break
 		}
